@@ -68,11 +68,14 @@ def let_star(forms):
 
 
 def atoms_in(x, acc):
-    if isinstance(x, list):
-        for y in x:
-            atoms_in(y, acc)
-    elif is_atom(x):
-        acc.append(x[1])
+    """the atoms of a form in order (iterative: forms nest as deep as the expression)"""
+    stack = [x]
+    while stack:
+        y = stack.pop()
+        if isinstance(y, list):
+            stack.extend(reversed(y))
+        elif is_atom(y):
+            acc.append(y[1])
     return acc
 
 
@@ -141,6 +144,36 @@ def discipline_check(forms):
                 return "a framed printer takes a mutex around the frame procedure, which locks the same mutex: deadlock"
             if not any(a.startswith("%lf3:frame:") for a in txt):
                 return "a printer neither uses make-printer nor the frame procedure"
+    # two variables that name the same underlying port must not be guarded by different mutexes
+    opened = {}
+    for b in bindings:
+        name, val = b[0][1], b[1]
+        if name.startswith("%lf3:port:") and isinstance(val, list):
+            opened.setdefault(repr(val), []).append(name)
+    for what, names in opened.items():
+        ms = set(port_mutex[n] for n in names if n in port_mutex)
+        if len(ms) > 1:
+            return ("the variables %s all name the same port but their printers lock different mutexes %s: two threads can "
+                    "write to it at once and tear a record" % (names, sorted(ms)))
+    # a printer without terminator on a line-oriented (unframed) port must be handed whole lines
+    bare = set()
+    for b in bindings:
+        name, val = b[0][1], b[1]
+        if (name.startswith("%lf3:print:") and isinstance(val, list) and len(val) == 4 and is_atom(val[0], "make-printer")
+                and is_atom(val[3], "#f")):
+            bare.add(name)
+    stack = [body]
+    while stack:
+        y = stack.pop()
+        if not isinstance(y, list):
+            continue
+        if len(y) == 2 and is_atom(y[0]) and y[0][1] in bare:
+            arg = y[1]
+            if (isinstance(arg, list) and len(arg) >= 3 and is_atom(arg[0], "format") and isinstance(arg[2], tuple)
+                    and arg[2][0] == "s" and arg[2][1] != "" and not arg[2][1].endswith("\n")):
+                return ("plain (unframed) mode, printer %s adds no terminator, and the text it is handed (template %r) "
+                        "does not end in a newline: records of different threads run together on the port" % (y[0][1], arg[2][1][-20:]))
+        stack.extend(y)
     mutex_names = [b[0][1] for b in bindings if is_atom(b[0]) and b[0][1].startswith("%lf3:mutex:")]
     if len(set(port_mutex.values())) != len(port_mutex):
         pass  # several ports sharing a mutex is safe
